@@ -118,7 +118,7 @@ func TestC19(t *testing.T) {
 	defer r.Close(t)
 	r.Rule("histories: every sequence of Set/Append/Add over 3 tags (nil tag, en, fr; and, one step shorter, the empty tag, the nil tag, en) x 2 texts up to the length bound, then random longer ones over 5 tags (incl. the empty one) x 4 texts; " +
 		"after every step Count, First, the tag sequence and Get(tag) for every tag are compared with a reference list of (tag,text) entries. " +
-		"equality: all ordered pairs of lists without repeated tags of length <= 3 over (nil tag, en, fr), and of length <= 2 over (en, EN, nil tag, empty tag): Equals(a,b) iff same set of pairs. " +
+		"equality: all ordered pairs of lists without repeated tags of length <= 3 over (nil tag, en, fr), and of length <= 2 over (en, EN, nil tag, empty tag): Equals(a,b) iff same set of pairs, both lists unchanged by the comparison and a second comparison agreeing with the first. " +
 		"non-trivial history = contains a Set on a present tag after >= 2 entries; non-trivial pair = both lists have >= 2 entries; distinct by op sequence / pair")
 
 	tags3 := []ap.LangRef{ap.NilLangRef, "en", "fr"}
@@ -255,8 +255,21 @@ func TestC19(t *testing.T) {
 				}
 				n++
 				want := setOf(a) == setOf(b)
-				var got bool
-				pi := evSafe(func() { got = a.Equals(b) })
+				// each comparison gets its own copies (with spare capacity): comparing reads both lists, and leaves both as they were
+				spare := func(l nl) nl {
+					out := make(nl, len(l), len(l)+2)
+					copy(out, l)
+					return out
+				}
+				origA, origB := fmt.Sprintf("%q", a), fmt.Sprintf("%q", b)
+				a, b = spare(a), spare(b)
+				var got, again bool
+				pi := evSafe(func() { got = a.Equals(b); again = a.Equals(b) })
+				if pi == nil && (fmt.Sprintf("%q", a) != origA || fmt.Sprintf("%q", b) != origB) {
+					r.Report("equality", cell, "nlv equals changes-operand", fmt.Sprintf("after %s.Equals(%s) the lists are %q and %q", origA, origB, a, b), cell)
+				} else if pi == nil && again != got {
+					r.Report("equality", cell, "nlv equals unstable", fmt.Sprintf("%s.Equals(%s) = %v, then %v", origA, origB, got, again), cell)
+				}
 				r.Case(cell, len(a) >= 2 && len(b) >= 2, fmt.Sprintf("equality len=%d,%d", len(a), len(b)))
 				if (i*31+j)%1999 == 0 {
 					r.Sample(cell, map[string]interface{}{"layer": "equality", "a": fmt.Sprint(a), "b": fmt.Sprint(b), "expected": want, "got": got})
